@@ -30,7 +30,8 @@ Range(s) == {s[i] : i \in 1..Len(s)}
 
 RECURSIVE Denote(_, _)
 \* subs: set of <<qualname, base kind>> of user subclasses of built-in types in scope
-DenoteSeq(ts, subs) == [i \in 1..Len(ts) |-> Denote(ts[i], subs)]
+\* (\o <<>> forces TLC's lazy function value into a tuple; otherwise every xs[i] re-runs Denote)
+DenoteSeq(ts, subs) == [i \in 1..Len(ts) |-> Denote(ts[i], subs)] \o <<>>
 AnyBot(vs) == \E i \in 1..Len(vs) : IsBot(vs[i])
 
 EmptyOf(kind) ==
@@ -55,7 +56,7 @@ Denote(t, subs) ==
     [] t[1] \in {"list", "tuple", "set"} ->
          LET xs == DenoteSeq(t[2], subs) IN IF AnyBot(xs) THEN BOT ELSE <<t[1], xs>>
     [] t[1] = "dict" ->
-         LET ps == [i \in 1..Len(t[2]) |-> <<Denote(t[2][i][1], subs), Denote(t[2][i][2], subs)>>] IN
+         LET ps == [i \in 1..Len(t[2]) |-> <<Denote(t[2][i][1], subs), Denote(t[2][i][2], subs)>>] \o <<>> IN
          IF \E i \in 1..Len(ps) : IsBot(ps[i][1]) \/ IsBot(ps[i][2]) THEN BOT ELSE <<"dict", ps>>
     [] t[1] = "call" ->
          LET f == t[2]
@@ -91,7 +92,7 @@ Denote(t, subs) ==
                         ELSE BOT
          ELSE \* a constructor call: denotes the object built from the denoted arguments
               LET xs == DenoteSeq(args, subs)
-                  ks == [i \in 1..Len(kws) |-> <<kws[i][1], Denote(kws[i][2], subs)>>]
+                  ks == [i \in 1..Len(kws) |-> <<kws[i][1], Denote(kws[i][2], subs)>>] \o <<>>
               IN IF AnyBot(xs) \/ (\E i \in 1..Len(ks) : IsBot(ks[i][2])) THEN BOT
                  ELSE <<"obj", f, xs, ks>>
     [] t[1] = "name" -> <<"obj", t[2], <<>>, <<>>>>     \* e.g. datetime.timezone.utc, Color.RED
@@ -134,9 +135,9 @@ RECURSIVE Truncate(_, _)
 Take(s, n) == SubSeq(s, 1, IF Len(s) < n THEN Len(s) ELSE n)
 Truncate(v, N) ==
   CASE v[1] \in {"list", "tuple", "set", "frozenset"} ->
-         <<v[1], [i \in 1..Len(Take(v[2], N)) |-> Truncate(v[2][i], N)]>>
+         <<v[1], [i \in 1..Len(Take(v[2], N)) |-> Truncate(v[2][i], N)] \o <<>>>>
     [] v[1] \in {"dict", "dictany"} ->
-         <<v[1], [i \in 1..Len(Take(v[2], N)) |-> <<Truncate(v[2][i][1], N), Truncate(v[2][i][2], N)>>]>>
+         <<v[1], [i \in 1..Len(Take(v[2], N)) |-> <<Truncate(v[2][i][1], N), Truncate(v[2][i][2], N)>>] \o <<>>>>
     [] v[1] = "sub" -> <<"sub", v[2], Truncate(v[3], N)>>
     [] OTHER -> v
 
@@ -189,15 +190,15 @@ CutSyn(v, d, re, rk) ==
   IF d <= 0 /\ ~(re /\ IsEmptyContainer(v)) THEN Placeholder(v)
   ELSE CASE v[1] \in {"list", "tuple", "set"} ->
               IF Len(v[2]) = 0 THEN SynEmpty(v)
-              ELSE <<v[1], [i \in 1..Len(v[2]) |-> CutSyn(v[2][i], d - 1, re, rk)]>>
+              ELSE <<v[1], [i \in 1..Len(v[2]) |-> CutSyn(v[2][i], d - 1, re, rk)] \o <<>>>>
          [] v[1] = "frozenset" ->
               IF Len(v[2]) = 0 THEN SynEmpty(v)
               ELSE <<"call", "frozenset",
-                     << <<"list", [i \in 1..Len(v[2]) |-> CutSyn(v[2][i], d - 1, re, rk)]>> >>, <<>>>>
+                     << <<"list", [i \in 1..Len(v[2]) |-> CutSyn(v[2][i], d - 1, re, rk)] \o <<>>>> >>, <<>>>>
          [] v[1] \in {"dict", "dictany"} ->
               <<"dict", [i \in 1..Len(v[2]) |->
                           <<IF rk /\ v[2][i][1][1] \in {"str", "bytes"} THEN v[2][i][1]
                             ELSE CutSyn(v[2][i][1], d - 1, re, rk),
-                            CutSyn(v[2][i][2], d - 1, re, rk)>>]>>
+                            CutSyn(v[2][i][2], d - 1, re, rk)>>] \o <<>>>>
          [] OTHER -> v
 =============================================================================
